@@ -29,17 +29,17 @@ let dispatch (fields : string list) : string =
        | None -> "NONE"
        | Some (n, v) -> field_of_text n ^ "\t" ^ field_of_text v)
   | ["translit"; ps] ->
-      (* spec oracle: is the reading unambiguous, its text, its transliteration (stripped and raw) *)
+      (* spec oracle: is the reading unambiguous, its text, its transliteration (trailing white space removed, and raw) *)
       let ps = pieces_of_field ps in
       (if segmented sutoton_table ps [] then "SEG" else "AMBIG") ^ "\t" ^ field_of_text (src_of ps)
-      ^ "\t" ^ field_of_text (strip (translit ps)) ^ "\t" ^ field_of_text (translit ps)
+      ^ "\t" ^ field_of_text (strip_right (translit ps)) ^ "\t" ^ field_of_text (translit ps)
   | ["rewrite"; defs; s] ->
       (* spec oracle: reference rewriting of a text without strings/comments/definitions, under the
          vocabulary extended by the definitions *)
       let t = List.fold_left (fun t (n, v) -> define n v t) sutoton_table (defs_of_field defs) in
       let s = text_of_field s in
       if List.exists is_special s then "SPECIAL" else
-      field_of_text (strip (rewrite (nat_of_int (List.length s + 1)) t s))
+      field_of_text (strip_right (rewrite (nat_of_int (List.length s + 1)) t s))
   | "chain" :: segs ->
       (* spec oracle for a text made of segments: b:<text> rewritten under the current vocabulary,
          d:<name>:<value> a definition (adds to the vocabulary, emits nothing), v:<text> a closed string
@@ -54,8 +54,8 @@ let dispatch (fields : string list) : string =
         | ["v"; s] -> (t, acc @ text_of_field s)
         | _ -> raise (Bad ("seg:" ^ seg)) in
       let (_, out) = List.fold_left step (sutoton_table, []) segs in
-      field_of_text (strip out)
+      field_of_text (strip_right out)
   | ["width_map"; c] -> string_of_z (width_map (z_of_string c))
-  | ["strip"; s] -> field_of_text (strip (text_of_field s))
+  | ["strip"; s] -> field_of_text (strip_right (text_of_field s))   (* what convert does to its result: trim_end *)
   | k :: _ -> "UNKNOWN-KIND:" ^ k
   | [] -> "EMPTY"
